@@ -120,6 +120,20 @@ struct SubStats
     double wall{0};
 };
 
+// optional: unrelated library calls before a check (kit/prelude.h sets this pointer when it is included by the harness)
+inline void (*&prelude_hook())(uint64_t, int) { static void (*h)(uint64_t, int) = nullptr; return h; }
+// size hint for the prelude: the first of the usual size fields found in the case
+inline int prelude_hint(const Json& c) {
+    for (const char* k : {"n", "nfft", "len", "nwin", "L", "nh", "order", "n1", "N", "nx"})
+        if (c.has(k) && c.at(k).kind == Json::Int) { const long long v = c.at(k).integer(); if (v >= 1) return int(std::min<long long>(v, 1 << 17)); }
+    return 64;
+}
+inline void maybe_prelude(const Json& c, Out& o) {
+    if (prelude_hook() && c.kind == Json::Obj && c.has("pre") && c.at("pre").kind == Json::Int && c.at("pre").u64() != 0) {
+        prelude_hook()(c.at("pre").u64(), prelude_hint(c));
+        o.labels.push_back("kit:prelude (unrelated library calls of related size before the check)");
+    }
+}
 struct Ctx;
 struct Sub
 {
@@ -181,6 +195,7 @@ struct Ctx
                     o.evals = 0;
                     for (const Json& ci : c.at("__seq").a) {
                         Out oi;
+                        maybe_prelude(ci, oi);
                         sub->check(ci, oi);
                         o.evals += oi.evals;
                         if (oi.discard) { ++k; continue; }
@@ -192,6 +207,7 @@ struct Ctx
                     }
                     o.labels.push_back("kit:case-sequence");
                 } else {
+                    maybe_prelude(c, o);
                     sub->check(c, o);
                 }
             } catch (const std::exception& e) {
@@ -300,6 +316,8 @@ struct Ctx
           [&]() {
               Json c = make();
               auto pick_ = [](int lo, int hi) { return *::rc::gen::resize(kNominalSize, ::rc::gen::inRange<int>(lo, hi + 1)); };
+              if (seq_mode && prelude_hook() && c.kind == Json::Obj && !c.has("pre") && pick_(0, 3) == 0)
+                  c.set("pre", (long long)(1 + *::rc::gen::resize(kNominalSize, ::rc::gen::inRange<long long>(0, 1ll << 40))));
               if (seq_mode && pick_(0, 3) == 3) {   // a quarter of the cases: 2-3 generated cases run back to back in one thread
                   Json sq = Json::array();
                   sq.push(c);
